@@ -427,7 +427,7 @@ pub fn fam_poison(thorough: bool) -> Vec<Program> {
 pub fn fam_c09(thorough: bool) -> Vec<Program> {
 	let mut out = vec![];
 	let maxn = if thorough { 4 } else { 3 };
-	let body = Body { touch: true, yield_mid: false, panic: false, clear: false };
+	let body = Body { touch: true, yield_mid: false, panic: false, clear: false, rekey: false };
 	for policy in POLICIES {
 		for n in 1..=maxn {
 			for arr in perms(n) {
@@ -510,7 +510,7 @@ pub fn fam_c09(thorough: bool) -> Vec<Program> {
 	}
 	// the opponent takes a member twice (release and re-take while the retrying thread is between two raw
 	// operations), singly and then through a sorting collection over the same members; mutex and rwlock members
-	let b0 = Body { touch: false, yield_mid: false, panic: false, clear: false };
+	let b0 = Body { touch: false, yield_mid: false, panic: false, clear: false, rekey: false };
 	for policy in POLICIES {
 		for members in [vec![Spec::R(0), Spec::M(0)], vec![Spec::M(0), Spec::R(0)], vec![Spec::M(1), Spec::M(0)], vec![Spec::R(1), Spec::R(0)], vec![Spec::R(0), Spec::R(1)]] {
 			for w0 in [true, false] {
@@ -621,6 +621,15 @@ pub fn fam_vecs(body: Body) -> Vec<Program> {
 				}
 			}
 		}
+		// the conversion-trait constructor over the same data
+		for k1 in KINDS {
+			for (w0, w1) in [(true, true), (true, false)] {
+				if policy == Policy::WP && w0 && w1 {
+					continue;
+				}
+				out.push(Program { specs: vec![Spec::Native(Native::VecsFromRef), Spec::Native(Native::VecsRefs(k1))], threads: vec![vec![acq(0, w0, Flavour::Guard, body)], vec![acq(1, w1, Flavour::Guard, body)]], policy, name: "V".into(), menu: vec![] });
+			}
+		}
 		// two unchecked collections over the same data
 		for k0 in KINDS {
 			for k1 in KINDS {
@@ -678,13 +687,17 @@ pub fn fam_same(body: Body, thorough: bool) -> Vec<Program> {
 pub fn fam_kill(thorough: bool) -> Vec<Program> {
 	let mut out = vec![];
 	for policy in POLICIES {
-		for leaf in [Spec::R(0), Spec::M(0)] {
-			let rw = matches!(leaf, Spec::R(_));
+		let mut leaves = vec![Spec::R(0), Spec::M(0)];
+		if thorough {
+			leaves.push(Spec::PR(0));
+			leaves.push(Spec::PM(0));
+		}
+		for leaf in leaves {
+			let rw = matches!(leaf, Spec::R(_) | Spec::PR(_));
 			let mut colls = vec![leaf.clone(), Spec::Coll(Kind::Boxed, vec![leaf.clone(), Spec::R(1)]), Spec::Coll(Kind::Ref, vec![Spec::R(1), leaf.clone()])];
 			if thorough {
 				colls.push(Spec::Coll(Kind::Retry, vec![leaf.clone(), Spec::R(1)]));
 				colls.push(Spec::Coll(Kind::Retry, vec![Spec::R(1), leaf.clone()]));
-				colls.push(Spec::Pois(Box::new(leaf.clone())));
 			}
 			for c in colls {
 				for (wh, ww) in [(true, true), (true, false), (false, true)] {
@@ -753,8 +766,8 @@ pub fn fam_readers(thorough: bool) -> Vec<Program> {
 		specs.push(Spec::Native(Native::OwnedPoisR));
 	}
 	let rf: &[Flavour] = if thorough { &[Flavour::Guard, Flavour::GuardUnlock, Flavour::Try, Flavour::ScopedLent, Flavour::ScopedOwned, Flavour::ScopedTryLent, Flavour::ScopedTryOwned] } else { &[Flavour::Guard, Flavour::ScopedLent, Flavour::ScopedTryOwned] };
-	let inside = Body { touch: true, yield_mid: true, panic: false, clear: false };
-	let quick = Body { touch: true, yield_mid: false, panic: false, clear: false };
+	let inside = Body { touch: true, yield_mid: true, panic: false, clear: false, rekey: false };
+	let quick = Body { touch: true, yield_mid: false, panic: false, clear: false, rekey: false };
 	for policy in POLICIES {
 		for s in &specs {
 			for f0 in rf {
@@ -786,7 +799,7 @@ pub fn fam_debug(thorough: bool) -> Vec<Program> {
 			sets.push(vec![Spec::R(0), Spec::Pois(Box::new(Spec::Coll(k, vec![Spec::R(1), Spec::R(0)])))]);
 		}
 	}
-	let inside = Body { touch: true, yield_mid: true, panic: false, clear: false };
+	let inside = Body { touch: true, yield_mid: true, panic: false, clear: false, rekey: false };
 	for specs in sets {
 		if specs.len() == 2 && matches!(specs[1], Spec::Native(Native::OwnedTupMR)) {
 			// fresh leaves: the holder uses the collection itself
@@ -799,6 +812,61 @@ pub fn fam_debug(thorough: bool) -> Vec<Program> {
 			}
 			for f0 in [Flavour::Guard, Flavour::ScopedLent] {
 				out.push(Program { specs: specs.clone(), threads: vec![vec![acq(0, w0, f0, inside)], vec![Step::Debug(1), acq(1, true, Flavour::Try, Body::TOUCH)]], policy: Policy::RP, name: "G".into(), menu: vec![] });
+			}
+		}
+	}
+	out
+}
+
+/// Family Q: inside its section a thread asks for its key again (twice in a row): a key handed out while
+/// the section's own key is alive lets the thread start an acquisition while it holds, and wait for itself.
+pub fn fam_rekey() -> Vec<Program> {
+	let mut out = vec![];
+	let mut targets = vec![Spec::M(0), Spec::R(0), Spec::PM(0), Spec::OW(0)];
+	for k in KINDS {
+		targets.push(Spec::Coll(k, vec![Spec::R(1), Spec::M(0)]));
+	}
+	for t in targets {
+		for f in FLAVOURS {
+			for w in [true, false] {
+				if !w && !t.sharable() {
+					continue;
+				}
+				out.push(Program { specs: vec![t.clone(), Spec::R(2)], threads: vec![vec![acq(0, w, f, Body::REKEY)], vec![acq(1, true, Flavour::Guard, Body::NONE)]], policy: Policy::RP, name: "Q".into(), menu: vec![] });
+			}
+		}
+	}
+	out
+}
+
+/// Family U: a thread releases through the explicit `unlock` / `unlock_read` functions (and the other exits)
+/// while a second thread is about to enter and a third tries to: a release that is issued twice, or once
+/// too early, frees the second thread's hold while it is inside.
+pub fn fam_unlock(thorough: bool) -> Vec<Program> {
+	let mut out = vec![];
+	let mut targets = vec![Spec::M(0), Spec::R(0), Spec::PM(0), Spec::PR(0), Spec::OW(0)];
+	for k in KINDS {
+		targets.push(Spec::Coll(k, vec![Spec::M(0), Spec::R(0)]));
+		if thorough {
+			targets.push(Spec::Pois(Box::new(Spec::Coll(k, vec![Spec::R(1), Spec::R(0)]))));
+		}
+	}
+	targets.push(Spec::Native(Native::OwnedTupMR));
+	let inside = Body { touch: true, yield_mid: true, panic: false, clear: false, rekey: false };
+	let quick = Body { touch: true, yield_mid: false, panic: false, clear: false, rekey: false };
+	let firsts: &[Flavour] = if thorough { &FLAVOURS } else { &[Flavour::GuardUnlock, Flavour::ScopedTryLent] };
+	for t in targets {
+		for f0 in firsts {
+			for w0 in [true, false] {
+				if !w0 && !t.sharable() {
+					continue;
+				}
+				for w2 in [true, false] {
+					if !w2 && (!t.sharable() || !thorough) {
+						continue;
+					}
+					out.push(Program { specs: vec![t.clone()], threads: vec![vec![acq(0, w0, *f0, quick)], vec![acq(0, true, Flavour::Guard, inside)], vec![acq(0, w2, Flavour::Try, quick)]], policy: Policy::RP, name: "U".into(), menu: vec![] });
+				}
 			}
 		}
 	}
